@@ -58,6 +58,10 @@ def run_checks(d, checks, tier):
     assert o.strip() == '', '/repo is not clean: ' + o
     rc, o = sh('git -C %s apply %s' % (REPO, patch))
     assert rc == 0, o
+    # evidence files describe runs on the unchanged tree: keep them out of these runs
+    ev = os.path.join(VERIF, 'evidence'); bak = '/tmp/mut/evidence.bak'
+    shutil.rmtree(bak, ignore_errors=True)
+    if os.path.isdir(ev): shutil.copytree(ev, bak)
     try:
         for c in checks:
             t0 = time.time()
@@ -73,6 +77,9 @@ def run_checks(d, checks, tier):
                       'kind': (replay or {}).get('kind'),
                       'what': json.dumps((replay or {}).get('violation') or (replay or {}).get('no_longer_checks'))[:600] if replay else None}
     finally:
+        if os.path.isdir(bak):
+            shutil.rmtree(ev, ignore_errors=True); shutil.copytree(bak, ev)
+        shutil.rmtree(os.path.join(VERIF, 'replays'), ignore_errors=True)
         sh('git -C %s checkout -- .' % REPO)
         rc, o = sh('git -C %s status --short' % REPO)
         assert o.strip() == '', 'could not restore /repo: ' + o
